@@ -72,6 +72,7 @@ type seenBody struct {
 	row      []int
 	attempts []int // outcome kinds served, in order
 	busy     bool
+	lastEnd  int64 // when the outcome of the latest attempt was decided
 }
 
 type upstream struct {
@@ -84,6 +85,25 @@ type upstream struct {
 	order   []*seenBody
 	nextRow int
 	last    time.Time // last time an attempt started or ended
+	t0      time.Time // start of the case; all recorded times are nanoseconds since then
+}
+
+// giveUpHook records when the handler logs "failed to send, giving up": the log call follows the
+// NextBackOff() that returned Stop, so its time bounds from above the elapsed time that call saw.
+type giveUpHook struct {
+	mu    sync.Mutex
+	t0    time.Time
+	times []int64
+}
+
+func (h *giveUpHook) Levels() []logrus.Level { return logrus.AllLevels }
+func (h *giveUpHook) Fire(e *logrus.Entry) error {
+	if e.Message == "failed to send, giving up" {
+		h.mu.Lock()
+		h.times = append(h.times, int64(time.Since(h.t0)))
+		h.mu.Unlock()
+	}
+	return nil
 }
 
 func headerView(h http.Header) map[string]string {
@@ -166,6 +186,7 @@ func (s *upstream) ServeHTTP(w http.ResponseWriter, r *http.Request) {
 		s.mu.Lock()
 		b.busy = false
 		s.last = time.Now()
+		b.lastEnd = int64(time.Since(s.t0))
 		s.ev.add(hlib.App("EAttE", nat(b.idx), hlib.N(uint64(kind))))
 		s.mu.Unlock()
 	}
@@ -265,16 +286,22 @@ func runFwd(in input) []hlib.Case {
 	if in.Shutdown {
 		cls = "fwd-shutdown-" + in.Mode
 	}
+	if in.IdleMs > 0 {
+		cls = "fwd-late-failure"
+	}
 	c := hlib.Case{Input: in, Class: cls}
 	mon := &monitors{}
 	ev := &evlog{}
 	u := buildUniverse(in.Batches)
-	up := &upstream{in: in, u: u, ev: ev, mon: mon, bodies: map[string]*seenBody{}}
+	t0 := time.Now()
+	up := &upstream{in: in, u: u, ev: ev, mon: mon, bodies: map[string]*seenBody{}, t0: t0}
 	srv := httptest.NewServer(up)
 	defer srv.Close()
 
 	logger := logrus.New()
 	logger.SetOutput(io.Discard)
+	gu := &giveUpHook{t0: t0}
+	logger.AddHook(gu)
 	v := viper.New()
 	ct := 10 * time.Second
 	if in.ClientTimeoutMs > 0 {
@@ -328,7 +355,11 @@ func runFwd(in input) []hlib.Case {
 
 	ctx, cancel := context.WithCancel(context.Background())
 	runDone := make(chan struct{})
+	runStart := int64(time.Since(t0))
 	go func() { hfh.Run(ctx); close(runDone) }()
+	// the handler may be old when its first request fails: the retry window of a request is its own
+	time.Sleep(time.Duration(in.IdleMs) * time.Millisecond)
+	callAt := make([]int64, len(in.Batches))
 
 	nFlush := 0
 	if manual {
@@ -351,6 +382,7 @@ func runFwd(in input) []hlib.Case {
 				}
 				time.Sleep(time.Duration(b.Us) * time.Microsecond)
 				mm := u.batchMap(bi)
+				callAt[bi] = int64(time.Since(t0))
 				ev.add(hlib.App("ECall", nat(bi)))
 				hfh.DispatchMetricMap(context.Background(), mm)
 				ev.add(hlib.App("ERet", nat(bi)))
@@ -479,6 +511,50 @@ func runFwd(in input) []hlib.Case {
 		}
 	}
 
+	// ---- bodies that were given up: pair them with the handler's "giving up" log entries.  The
+	// request of body B was created after the last dispatch call of any of its items (lb); it may be
+	// given up only when NextBackOff saw elapsed > window, and the log entry comes after that call,
+	// so a legitimate pairing has t_log >= max(lastEnd(B), lb(B) + window).  Sorting both sides finds a
+	// legitimate pairing whenever one exists; Coq then checks every pair against the window.
+	gu.mu.Lock()
+	logs := append([]int64(nil), gu.times...)
+	gu.mu.Unlock()
+	sort.Slice(logs, func(i, j int) bool { return logs[i] < logs[j] })
+	lbOf := func(b *seenBody) int64 {
+		lb := runStart
+		for _, id := range b.ids {
+			if id < len(u.items) && callAt[u.items[id].batch] > lb {
+				lb = callAt[u.items[id].batch]
+			}
+		}
+		return lb
+	}
+	type given struct {
+		b     *seenBody
+		lb    int64
+		theta int64
+	}
+	var gs []given
+	for _, b := range bodies {
+		if !kindOK(b.attempts[len(b.attempts)-1]) {
+			g := given{b: b, lb: lbOf(b), theta: b.lastEnd}
+			if window > 0 && g.lb+int64(window) > g.theta {
+				g.theta = g.lb + int64(window)
+			}
+			gs = append(gs, g)
+		}
+	}
+	sort.Slice(gs, func(i, j int) bool { return gs[i].theta < gs[j].theta })
+	stopUB := map[int]int64{}
+	for i, g := range gs {
+		if i < len(logs) {
+			stopUB[g.b.idx] = logs[i] - g.lb
+		}
+	}
+	if !stuck && len(logs) != len(gs) {
+		mon.add(fmt.Sprintf("%d bodies ended in a failed attempt but the handler logged %d times that it gives up", len(gs), len(logs)))
+	}
+
 	// ---- the Coq case
 	var xhl, il, bl []string
 	for _, kv := range in.XHeaders {
@@ -498,13 +574,13 @@ func runFwd(in input) []hlib.Case {
 		for _, n := range names {
 			hl = append(hl, hlib.Pair(hlib.Bytes(n), hlib.Bytes(b.headers[n])))
 		}
-		bl = append(bl, hlib.App("Body", natList(b.ids), hlib.Bytes(enc), hlib.List(hl)))
+		bl = append(bl, hlib.App("Body", natList(b.ids), hlib.Bytes(enc), hlib.List(hl), hlib.Z(stopUB[b.idx])))
 	}
 	ev.mu.Lock()
 	evs := hlib.List(ev.l)
 	nev := len(ev.l)
 	ev.mu.Unlock()
-	c.Coq = hlib.App("FwdCase", hlib.List(xhl), hlib.StrList(in.Dyn), u.utf8Table(), hlib.List(il), hlib.Bool(manual), nat(nFlush), evs, hlib.List(bl),
+	c.Coq = hlib.App("FwdCase", hlib.Z(int64(window)), hlib.List(xhl), hlib.StrList(in.Dyn), u.utf8Table(), hlib.List(il), hlib.Bool(manual), nat(nFlush), evs, hlib.List(bl),
 		hlib.App("Ctr", nat(int(created)), nat(int(sent)), nat(int(retried)), nat(int(dropped)), nat(int(invalid))))
 	c.Monitors = mon.l
 	retriedBodies := 0
